@@ -363,8 +363,9 @@ class SStr(object):
             r = cells_equal(c, old)
             if r is False or _definitely_false(r): out.append(c); continue
             if r is True or _definitely_true(r): out.extend(new); continue
-            if builtins.len(new) != 1:
-                # fork
+            if builtins.len(new) != 1 or isinstance(c, DChar):
+                # fork (a DChar has a small domain: keeping it a DChar / a concrete
+                # character keeps the string readable by the numeric-cell reader)
                 if _truth(r): out.extend(new)
                 else: out.append(c)
             else:
